@@ -289,7 +289,12 @@ def t_octalValue(t):
 # the 0. If not at the end, 0 would match at the begin of e.g. an octal value.
 def t_decimalValue(t):
     r'[+-]?([1-9][0-9]*|0)'
-    t.value = int(t.value)
+    try:
+        t.value = int(t.value)
+    except ValueError as exc:
+        # e.g. more digits than sys.get_int_max_str_digits()
+        t.lexer.last_msg = _format("Invalid decimal number: {0}", exc)
+        t.type = 'error'
     return t
 
 
